@@ -32,7 +32,7 @@ ROOT = core.ROOT
 PY = sys.executable
 
 TIERS = {
-    "quick": {"shards": 4, "floor": 100, "watchdog_s": 900},
+    "quick": {"shards": 4, "floor": 100, "watchdog_s": 420},
     "thorough": {"shards": 16, "floor": 2000, "watchdog_s": 3600},
 }
 
